@@ -225,10 +225,21 @@ def run(ctx: Ctx) -> RuleResult:
         raise AnalysisError('R-LEX-PRECEDENCE: found %d regexp compilation sites, expected at least 3' % n_cmp)
     # ---- keyword exception --------------------------------------------------------------------------------
     body = cuf
-    prio = [n for n in cuf.body_nodes() if isinstance(n, ast.If) and isinstance(n.test, ast.Compare) and isinstance(n.test.ops[0], ast.NotEq)
-            and norm(n.test.left).endswith('.priority') and norm(n.test.comparators[0]).endswith('.priority')
-            and any(isinstance(s, ast.Continue) for s in n.body)]
-    ok = len(prio) == 1
+    # every statement that records a keyword for a regexp terminal runs only when the two priorities are equal -- as a guard
+    # clause (`if a.priority != b.priority: continue`) or as an enclosing `if a.priority == b.priority:`
+    from ..exprs import runs_only_if, find_pat as _fp
+    recs = _fp(cuf.body_nodes(), '$u.append($st)') + _fp(cuf.body_nodes(), '$e.add($st)')
+    ok = bool(recs)
+    for call_, b_ in recs:
+        loops_ = [a for a in ancestors(call_) if isinstance(a, ast.For) and isinstance(a.target, ast.Name)]
+        names_ = [l.target.id for l in loops_]
+        if b_['st'] not in names_ or len(names_) < 2:
+            ok = False
+            continue
+        other = [x for x in names_ if x != b_['st']][0]
+        want_ = ast.parse('%s.priority == %s.priority' % (b_['st'], other), mode='eval').body
+        if not runs_only_if(enclosing_stmt(call_), want_):
+            ok = False
     res.ob('%s %s' % (cuf.loc(), cuf.qual), 'keyword exception applies only between terminals of equal priority', ok)
     if not ok:
         res.finding(cuf, cuf.node, 'the keyword/identifier exception is no longer restricted to equal priorities', construct='unless-priority')
@@ -287,6 +298,9 @@ def run(ctx: Ctx) -> RuleResult:
     ig_ = find_pat(nt.body_nodes(), '$ig = $ty in self.ignore_types')
     ok = bool(ig_) and any(isinstance(n, ast.If) and has_pat([n.test], 'not $ig', {'ig': ig_[0][1]['ig']})
                            and any(isinstance(s, ast.Return) for s in n.body) for n in nt.body_nodes())
+    # (the same without the temporary)
+    ok = ok or any(isinstance(n, ast.If) and has_pat([n.test], '$ty not in $me.ignore_types')
+                   and any(isinstance(s, ast.Return) for s in n.body) for n in nt.body_nodes())
     res.ob('%s %s' % (nt.loc(), nt.qual), 'ignored terminals are consumed but not returned', ok)
     if not ok:
         res.finding(nt, nt.node, 'the handling of ignored terminals in next_token changed', construct='ignored')
